@@ -18,6 +18,16 @@ package main
 //   - every call of a package-level function or method of the package is replaced by the callee's
 //     own expression (inlining, recursively), unless the caller declares the call opaque.
 //
+//   - an index expression `tbl[i]` on a package-level LOOKUP TABLE (tables.go: a variable that nothing
+//     writes and whose value is an array, slice or map literal) is replaced by a conditional chain over the
+//     index: `__ite(i == 0, e0, __ite(i == 1, e1, e2))` for an array or slice — accepted only if the
+//     evaluator can bound the index below the length (bound: from the unsigned types of the parameters,
+//     conversions, masks, shifts, …), since an index out of range is a panic in Go, which an expression cannot
+//     express —, and `__ite(i == k1, v1, … zero value)` for a map, where a missing key gives the zero value
+//     (`v, ok := m[i]` also binds ok to `i == k1 || i == k2 || …`),
+//   - `bytes.HasPrefix(x, []byte{c0, c1, …})` / `bytes.Equal` against a literal become a test of len(x) and
+//     comparisons of x[0], x[1], ….
+//
 // Everything else (loops, assignments to fields or elements, several results, calls of anything that
 // is not a conversion, a builtin or an inlinable function, defer, go, …) is an error: fail closed.
 
@@ -57,6 +67,9 @@ type purifier struct {
 	// declared type names of the receiver and the parameters of the function being reduced (T for
 	// both T and *T): x.m() on such an x is the method T.m
 	vtypes map[string]string
+	// width of the unsigned integer type of the identifiers that stand for parameters of the function being
+	// translated (see bound)
+	ubits map[string]int
 }
 
 func (x *purifier) die(pos token.Pos, format string, a ...interface{}) {
@@ -120,6 +133,10 @@ func (x *purifier) subst(e ast.Expr, env pureEnv) ast.Expr {
 		}
 		return &ast.SelectorExpr{X: x.subst(e.X, env), Sel: e.Sel}
 	case *ast.IndexExpr:
+		if tbl := x.lookupTable(e.X, env); tbl != nil {
+			v, _ := x.lookup(e.Pos(), tbl, x.subst(e.Index, env))
+			return paren(v)
+		}
 		return &ast.IndexExpr{X: x.subst(e.X, env), Lbrack: e.Lbrack, Index: x.subst(e.Index, env), Rbrack: e.Rbrack}
 	case *ast.StarExpr:
 		return &ast.StarExpr{Star: e.Star, X: x.subst(e.X, env)}
@@ -133,6 +150,9 @@ func (x *purifier) subst(e ast.Expr, env pureEnv) ast.Expr {
 	case *ast.CallExpr:
 		if e.Ellipsis != token.NoPos {
 			x.die(e.Pos(), "variadic call")
+		}
+		if r := x.bytesCompare(e, env); r != nil {
+			return r
 		}
 		n := &ast.CallExpr{Lparen: e.Lparen, Rparen: e.Rparen}
 		switch f := e.Fun.(type) {
@@ -279,6 +299,7 @@ func (x *purifier) funcExpr(fd *ast.FuncDecl, recv ast.Expr, args []ast.Expr, po
 		if tn := typeName(fd.Recv.List[0].Type); tn != "" {
 			vtypes[fd.Recv.List[0].Names[0].Name] = tn
 		}
+		x.noteUnsigned(recv, fd.Recv.List[0].Type)
 	}
 	k := 0
 	for _, f := range fd.Type.Params.List {
@@ -303,6 +324,7 @@ func (x *purifier) funcExpr(fd *ast.FuncDecl, recv ast.Expr, args []ast.Expr, po
 			if tn := typeName(f.Type); tn != "" {
 				vtypes[n.Name] = tn
 			}
+			x.noteUnsigned(a, f.Type)
 			k++
 		}
 	}
@@ -450,6 +472,17 @@ func (fr *pureFrame) stmts(list []ast.Stmt, env pureEnv, defined map[string]bool
 		return next(bind(s.Pos(), s.X, v, false))
 
 	case *ast.AssignStmt:
+		// v, ok := m[k] on a lookup table
+		if len(s.Lhs) == 2 && len(s.Rhs) == 1 && (s.Tok == token.DEFINE || s.Tok == token.ASSIGN) {
+			if ie, isIndex := s.Rhs[0].(*ast.IndexExpr); isIndex {
+				if tbl := x.lookupTable(ie.X, env); tbl != nil && tbl.kind == "map" {
+					v, ok := x.lookup(ie.Pos(), tbl, x.subst(ie.Index, env))
+					env = bind(s.Pos(), s.Lhs[0], v, s.Tok == token.DEFINE)
+					env = bind(s.Pos(), s.Lhs[1], ok, s.Tok == token.DEFINE)
+					return next(env)
+				}
+			}
+		}
 		if len(s.Lhs) != 1 || len(s.Rhs) != 1 {
 			x.die(s.Pos(), "unsupported assignment %s", render(s))
 		}
@@ -502,6 +535,239 @@ func (fr *pureFrame) stmts(list []ast.Stmt, env pureEnv, defined map[string]bool
 	}
 	x.die(list[0].Pos(), "unsupported statement %T", list[0])
 	return nil
+}
+
+// ---- lookup tables, byte-slice comparisons ----
+
+// unsignedBits: the width if t is an unsigned integer type (or a named type of the package with one as
+// underlying type), 0 otherwise
+func (p *pkgInfo) unsignedBits(t ast.Expr) int {
+	for depth := 0; depth < 10; depth++ {
+		id, ok := t.(*ast.Ident)
+		if !ok {
+			return 0
+		}
+		if w, ok := bvWidths[id.Name]; ok {
+			return w
+		}
+		if t, ok = p.types[id.Name]; !ok {
+			return 0
+		}
+	}
+	return 0
+}
+
+// noteUnsigned records that the argument, if it is an identifier, has the unsigned type of the parameter it
+// is passed for (Go has no implicit conversions between integer types)
+func (x *purifier) noteUnsigned(arg ast.Expr, paramType ast.Expr) {
+	id, ok := arg.(*ast.Ident)
+	w := x.p.unsignedBits(paramType)
+	if !ok || w == 0 {
+		return
+	}
+	if x.ubits == nil {
+		x.ubits = map[string]int{}
+	}
+	x.ubits[id.Name] = w
+}
+
+// bound: an upper bound of the value of a reduced expression that is also known not to be negative
+func (x *purifier) bound(e ast.Expr) (int64, bool) {
+	if v, ok := x.p.evalConst(e, 0); ok {
+		return v, v >= 0
+	}
+	typeMax := func(w int) int64 {
+		if w >= 63 {
+			return 1<<62 - 1 + 1<<62
+		}
+		return int64(1)<<uint(w) - 1
+	}
+	switch e := e.(type) {
+	case *ast.ParenExpr:
+		return x.bound(e.X)
+	case *ast.Ident:
+		if w, ok := x.ubits[e.Name]; ok {
+			return typeMax(w), true
+		}
+	case *ast.CallExpr:
+		if _, a, b, ok := isIte(e); ok {
+			m, ok1 := x.bound(a)
+			n, ok2 := x.bound(b)
+			if n > m {
+				m = n
+			}
+			return m, ok1 && ok2
+		}
+		if len(e.Args) == 1 {
+			if w := x.p.unsignedBits(e.Fun); w > 0 { // conversion to an unsigned type
+				m := typeMax(w)
+				if n, ok := x.bound(e.Args[0]); ok && n < m {
+					m = n
+				}
+				return m, true
+			}
+			if id, ok := e.Fun.(*ast.Ident); ok && (id.Name == "int" || id.Name == "int64") {
+				return x.bound(e.Args[0]) // every bounded value fits
+			}
+		}
+	case *ast.BinaryExpr:
+		m, ok1 := x.bound(e.X)
+		n, ok2 := x.bound(e.Y)
+		pow2 := func(v int64) int64 { // the smallest 2^k - 1 that is >= v
+			r := int64(0)
+			for r < v {
+				r = r<<1 | 1
+			}
+			return r
+		}
+		switch e.Op {
+		case token.AND:
+			switch {
+			case ok1 && ok2 && n < m:
+				return n, true
+			case ok1:
+				return m, true
+			case ok2:
+				return n, true
+			}
+		case token.OR, token.XOR:
+			if m < n {
+				m = n
+			}
+			return pow2(m), ok1 && ok2 && m < 1<<61
+		case token.ADD:
+			return m + n, ok1 && ok2 && m < 1<<61 && n < 1<<61
+		case token.MUL:
+			return m * n, ok1 && ok2 && m < 1<<30 && n < 1<<30
+		case token.SHR, token.QUO:
+			return m, ok1 && ok2 // not larger than the left operand
+		case token.REM:
+			if c, isConst := x.p.evalConst(e.Y, 0); isConst && c > 0 {
+				return c - 1, ok1
+			}
+		}
+	}
+	return 0, false
+}
+
+// lookupTable: e is the name of a package-level variable (not hidden by a local) that is indexed.  The CRC
+// table keeps its own translation (main.go).
+func (x *purifier) lookupTable(e ast.Expr, env pureEnv) *constTable {
+	id, ok := e.(*ast.Ident)
+	if !ok || id.Name == "tableCRC32" {
+		return nil
+	}
+	if _, local := env[id.Name]; local {
+		return nil
+	}
+	tbl, ok := x.p.table(e.Pos(), id.Name)
+	if !ok {
+		return nil
+	}
+	return tbl
+}
+
+func intLit(v int64) ast.Expr {
+	return &ast.BasicLit{Kind: token.INT, Value: fmt.Sprintf("%d", v)}
+}
+
+// lookup expands tbl[idx] (idx reduced): the value, and for a map the presence of the key
+func (x *purifier) lookup(pos token.Pos, tbl *constTable, idx ast.Expr) (val, present ast.Expr) {
+	// an element: a constant expression of the package, converted to the element type
+	elem := func(e ast.Expr) ast.Expr {
+		if e == nil {
+			return x.zeroValue(tbl.elemType)
+		}
+		v := x.subst(e, pureEnv{})
+		if id, ok := tbl.elemType.(*ast.Ident); ok && basicConversions[id.Name] {
+			v = &ast.CallExpr{Fun: id, Args: []ast.Expr{v}}
+		}
+		return v
+	}
+	eq := func(k int64) ast.Expr { return &ast.BinaryExpr{X: idx, Op: token.EQL, Y: intLit(k)} }
+	if tbl.kind == "map" {
+		val = x.zeroValue(tbl.elemType)
+		present = ast.NewIdent("false")
+		for i := len(tbl.keys) - 1; i >= 0; i-- {
+			val = mkIte(eq(tbl.keys[i]), elem(tbl.vals[i]), val)
+		}
+		for i, k := range tbl.keys {
+			if i == 0 {
+				present = eq(k)
+			} else {
+				present = &ast.BinaryExpr{X: present, Op: token.LOR, Y: eq(k)}
+			}
+		}
+		return val, &ast.ParenExpr{X: present}
+	}
+	n := int64(len(tbl.elems))
+	if c, ok := x.p.evalConst(idx, 0); ok {
+		if c < 0 || c >= n {
+			x.die(pos, "%s[%d]: index out of range", tbl.name, c)
+		}
+		return elem(tbl.elems[c]), nil
+	}
+	if m, ok := x.bound(idx); !ok || m >= n {
+		x.die(pos, "%s[%s]: cannot show that the index is below %d (out of range is a panic)", tbl.name, canon(idx), n)
+	}
+	val = elem(tbl.elems[n-1])
+	for i := n - 2; i >= 0; i-- {
+		val = mkIte(eq(i), elem(tbl.elems[i]), val)
+	}
+	return val, nil
+}
+
+// bytesCompare expands bytes.HasPrefix(x, lit) / bytes.Equal(x, lit) / bytes.Equal(lit, x), lit a []byte
+// literal of constants, into len(x) >= n (resp. ==) && x[0] == c0 && …; nil if e is not such a call
+func (x *purifier) bytesCompare(e *ast.CallExpr, env pureEnv) ast.Expr {
+	sel, ok := e.Fun.(*ast.SelectorExpr)
+	if !ok || len(e.Args) != 2 {
+		return nil
+	}
+	pkg, ok := sel.X.(*ast.Ident)
+	if !ok || pkg.Name != "bytes" || !x.p.imports["bytes"] || (sel.Sel.Name != "HasPrefix" && sel.Sel.Name != "Equal") {
+		return nil
+	}
+	if _, local := env["bytes"]; local {
+		return nil
+	}
+	literal := func(a ast.Expr) ([]ast.Expr, bool) {
+		cl, ok := a.(*ast.CompositeLit)
+		if !ok {
+			return nil, false
+		}
+		if t := render(cl.Type); t != "[]byte" && t != "[]uint8" {
+			return nil, false
+		}
+		var out []ast.Expr
+		for _, el := range cl.Elts {
+			v, ok := x.p.evalConst(el, 0)
+			if !ok || v < 0 || v > 255 {
+				x.die(el.Pos(), "element %s of the byte slice literal is not a byte constant", render(el))
+			}
+			out = append(out, intLit(v))
+		}
+		return out, true
+	}
+	lit, isLit := literal(e.Args[1])
+	other := e.Args[0]
+	if !isLit && sel.Sel.Name == "Equal" {
+		lit, isLit = literal(e.Args[0])
+		other = e.Args[1]
+	}
+	if !isLit {
+		return nil
+	}
+	v := x.subst(other, env)
+	op := token.GEQ
+	if sel.Sel.Name == "Equal" {
+		op = token.EQL
+	}
+	var r ast.Expr = &ast.BinaryExpr{X: &ast.CallExpr{Fun: ast.NewIdent("len"), Args: []ast.Expr{v}}, Op: op, Y: intLit(int64(len(lit)))}
+	for i, c := range lit {
+		r = &ast.BinaryExpr{X: r, Op: token.LAND, Y: &ast.BinaryExpr{X: &ast.IndexExpr{X: v, Index: intLit(int64(i))}, Op: token.EQL, Y: c}}
+	}
+	return &ast.ParenExpr{X: r}
 }
 
 // canon renders an expression as a lookup key: parentheses dropped, every binary expression
